@@ -2,15 +2,31 @@
  * sqfs_istream_read requests; prints, per request, the returned count and the crc32 of the bytes.
  * An argument pN is a single look: get_buffered_data(want = N) without consuming; printed as [-1000 - size seen, crc of
  * the first min(size, N) bytes].
- * The OS answers are scripted by harness/preload.c (VP_READ_SCRIPT).  usage: replay_stream file [pN] n1 n2 ... */
+ * The OS answers are scripted by harness/preload.c (VP_READ_SCRIPT).  usage: replay_stream file [pN] n1 n2 ...
+ * file = mem:<buffer size>:<path>: the same requests on the in-memory implementation of the stream interface (istream_memory_create). */
 #include <stdio.h>
 #include <stdlib.h>
 #include <zlib.h>
 #include "sqfs/io.h"
 #include "sqfs/error.h"
+#include <string.h>
+sqfs_istream_t *istream_memory_create(const char *name, size_t bufsz, const void *data, size_t size);
 int main(int argc, char **argv)
 {
 	sqfs_istream_t *in = NULL;
+	unsigned char *blob = NULL;
+	if (argc >= 2 && !strncmp(argv[1], "mem:", 4)) {
+		size_t bufsz = strtoul(argv[1] + 4, NULL, 10), len = 0;
+		const char *path = strchr(argv[1] + 4, ':');
+		FILE *f = path ? fopen(path + 1, "rb") : NULL;
+		if (!f) { printf("{\"fatal\":\"open\"}\n"); return 0; }
+		fseek(f, 0, SEEK_END); len = ftell(f); fseek(f, 0, SEEK_SET);
+		blob = malloc(len ? len : 1);
+		if (fread(blob, 1, len, f) != len) return 2;
+		fclose(f);
+		in = istream_memory_create("mem", bufsz, blob, len);
+		if (!in) { printf("{\"fatal\":\"create\"}\n"); return 0; }
+	} else
 	if (argc < 2 || sqfs_istream_open_file(&in, argv[1], 0)) { printf("{\"fatal\":\"open\"}\n"); return 0; }
 	printf("{\"results\":[");
 	for (int i = 2; i < argc; ++i) {
@@ -31,5 +47,6 @@ int main(int argc, char **argv)
 	}
 	printf("]}\n");
 	sqfs_drop(in);
+	free(blob);
 	return 0;
 }
